@@ -25,6 +25,7 @@ import (
 	"math/big"
 	"runtime"
 	"sort"
+	"sync"
 	"time"
 
 	"github.com/oasisprotocol/curve25519-voi/internal/verif/alph"
@@ -227,4 +228,21 @@ func par(c *mc.Ctx, sub string, n int, f func(w *mc.W, i int)) {
 		}()
 		f(w, i)
 	})
+}
+
+// proveRef memoises the reference proof per (format, key, alpha): the same honest proofs are the
+// starting point of several sub-spaces.  Reference side only; the value is a pure function of the key.
+var refProofs sync.Map
+
+func proveRef(f refvrf.Format, k refvrf.Key, alpha []byte) refvrf.Trace {
+	key := string([]byte{byte(f)}) + string(k.Seed) + string(alpha)
+	v, ok := refProofs.Load(key)
+	if !ok {
+		v, _ = refProofs.LoadOrStore(key, refvrf.Prove(f, k, alpha))
+	}
+	tr := v.(refvrf.Trace)
+	// fresh copies of the byte strings: callers hand them to the library under test
+	tr.Pi = append([]byte{}, tr.Pi...)
+	tr.Beta = append([]byte{}, tr.Beta...)
+	return tr
 }
